@@ -114,7 +114,7 @@ def instances(tier, seed):
         if o["name"] not in seen:
             seen.add(o["name"])
             uniq.append(o)
-    for k in ("nested", "bytewise", "bytewise-stream", "greedy-tail", "greedy-tail-3", "array-stream", "nonmultiple"):
+    for k in ("nested", "bytewise", "bytewise-stream", "greedy-tail", "greedy-tail-3", "array-stream", "nonmultiple", "empty-island", "empty-island-stream", "empty-bitstruct"):
         uniq.append(dict(name="special %s" % k, params=dict(kind=k)))
     return uniq
 
@@ -216,6 +216,10 @@ def harness(ctx, C, p):
         ctx.observe("bytes", r.value)
         ctx.check("built bytes equal the big-endian concatenation of the fields' bit patterns", ctx.eq(r.value, mkbytes(exp)))
         return "ok"
+    if nbytes >= 1:
+        # the same instance was used before on an input that ends inside the region (and inside a byte, for the streaming
+        # implementation): nothing of that call may be left over
+        api.outcome(d.parse, bytes([0xA5]) * (nbytes - 1), **kw)
     data = ctx.bytes("data", nbytes)
     G = 0
     for b in data:
@@ -267,6 +271,27 @@ def _special(ctx, C, p):
         ctx.check("a byte-oriented member embedded with Bytewise sees the re-assembled bytes",
                   api.and_terms([ctx.eq(v.a, G // (2 ** 20)), ctx.eq(v.b, (G // 16) % 65536), ctx.eq(v.c, G % 16)]))
         ctx.check("build inverts parse", ctx.eq(d.build(v, **kw), data))
+        return "ok"
+    if k in ("empty-island", "empty-island-stream"):
+        # a byte-oriented island of zero bytes consumes no bits; the fields after it stay where the layout puts them
+        if k == "empty-island":
+            d, kw = mk(C, "Bitwise(Struct('a'/Nibble, 'z'/Bytewise(Bytes(0)), 'y'/Bytewise(Struct()), 'b'/Nibble, 'c'/Octet))"), {}
+        else:
+            d, kw = mk(C, "Bitwise(Struct('a'/BitsInteger(this._params.w), 'z'/Bytewise(Bytes(0)), 'y'/Bytewise(Struct()), 'b'/Nibble, 'c'/Octet))"), dict(w=4)
+        data = ctx.bytes("data", 2)
+        r = api.outcome(d.parse, data, **kw)
+        ctx.check("parse accepts every region content", r.ok)
+        v = r.value
+        ctx.check("fields around a zero-byte island are the slices of the region", api.and_terms([ctx.eq(v.a, data[0] // 16), ctx.eq(v.b, data[0] % 16), ctx.eq(v.c, data[1]), ctx.eq(v.z, b"")]))
+        ctx.check("build inverts parse", ctx.eq(d.build(v, **kw), data))
+        return "ok"
+    if k == "empty-bitstruct":
+        d = mk(C, "Struct('e'/BitStruct(), 'x'/Byte, 'f'/Bitwise(Array(0, Flag)), 'y'/Byte)")
+        data = ctx.bytes("data", 2)
+        r = api.outcome(d.parse, data)
+        ctx.check("parse succeeds", r.ok)
+        ctx.check("empty bit regions consume nothing", api.and_terms([ctx.eq(r.value.x, data[0]), ctx.eq(r.value.y, data[1])]))
+        ctx.check("build inverts parse", ctx.eq(d.build(r.value), data))
         return "ok"
     if k in ("greedy-tail", "greedy-tail-3"):
         w = 4 if k == "greedy-tail" else 3
